@@ -411,10 +411,31 @@ func runC20(s *kernel.Sim) {
 	}
 	nops := 4 + s.Choose("nops", 14)
 	waits := 0
+	// results of loops that were stopped without anybody waiting: each is still delivered to one later Wait
+	unwaited := 0
+	drainWaits := func(i int) bool {
+		for ; unwaited > 0; unwaited-- {
+			got := make(chan error, 1)
+			waits++
+			s.GoBG(fmt.Sprintf("waiter%d", waits), func() { got <- a.Wait() })
+			s.Sleep("director", time.Millisecond)
+			select {
+			case err := <-got:
+				if err != nil {
+					s.Violate("stop", "Wait returns an error after a clean Stop", "#%d: result of an earlier loop: %v", i, err)
+					return false
+				}
+			default:
+				s.Violate("stop", "Wait does not return the result of a loop that was stopped earlier", "#%d", i)
+				return false
+			}
+		}
+		return true
+	}
 	s.Go("director", func() {
 		defer func() { done = true }()
 		for i := 0; i < nops && !s.Violated(); i++ {
-			switch op := s.TaskChoose("director", "op", 11); {
+			switch op := s.TaskChoose("director", "op", 12); {
 			case op <= 2: // Start (fresh, again while running, or with the pool failing at connect)
 				failConnect := !running && s.TaskChoose("director", "failconnect", 4) == 0
 				if failConnect {
@@ -490,6 +511,9 @@ func runC20(s *kernel.Sim) {
 				if !running {
 					continue
 				}
+				if !drainWaits(i) {
+					return
+				}
 				waitDone := make(chan error, 1)
 				waits++
 				s.GoBG(fmt.Sprintf("waiter%d", waits), func() { waitDone <- a.Wait() })
@@ -514,9 +538,26 @@ func runC20(s *kernel.Sim) {
 					s.Violate("stop", "keep-alives continue after Stop", "#%d: %d keep-alives after Stop", i, n)
 					return
 				}
+			case op == 11 && running: // Stop, and nobody waits for the loop's result: the agent must still be restartable
+				a.Stop()
+				s.Sleep("director", time.Millisecond)
+				settle()
+				s.TaskLog("director", "#%d Stop (no Wait)", i)
+				running = false
+				unwaited++
+				u0 := updates()
+				s.Sleep("director", 2*interval+interval/2)
+				settle()
+				if n := updates() - u0; n != 0 {
+					s.Violate("stop", "keep-alives continue after Stop", "#%d: %d keep-alives after Stop", i, n)
+					return
+				}
 			case op == 8 && running: // the pool fails the next keep-alive: the loop ends, Wait returns the error, a new Start works
 				if !running {
 					continue
+				}
+				if !drainWaits(i) {
+					return
 				}
 				waitDone := make(chan error, 1)
 				waits++
